@@ -131,8 +131,8 @@ PROPS = {
                  "REQUEST whose probe met a foreign answer is never acknowledged and is NAKed (conflict_never_acked, conflict_naked); an offered "
                  "address was probed free in the very search (offered_was_probed_free) — Lean theorems; the real arpping.Ping against injected frame "
                  "lists, responders on the pools of the server scripts, and restarts with leaseholders still answering."
-                 " FindIP as translated from the source on every run (each candidate: context check, clock, Lookup, Valid, probe callback) equals the model's findIP/findLoop (C11Code).",
-        "props": ["C08", "C13Code", "C11Code"],
+                 " FindIP as translated from the source on every run (each candidate: context check, clock, Lookup, Valid, probe callback) equals the model's findIP/findLoop (C11Code); arpping.catchARPReply/Ping and server.arpVerify as translated equal the model's catchARPReply (first frame whose first 28 bytes decode with sender address = target) and arpVerify over at most three pings (C08Code).",
+        "props": ["C08", "C13Code", "C11Code", "C08Code"],
         "streams": [{"test": "TestArp", "names": ["arp"], "timeout": 300}, {"test": "TestSrvSeq", "names": ["srvseq"], "timeout": 300}],
         "rule": "Ping against 0-4 injected frames (valid answers, wrong sender address, requests, short, padded to 46 bytes, random); restart scripts: 1-4 "
                 "hosts lease, the server is rebuilt empty, the holders answer ARP, 1-3 newcomers DISCOVER (half of them asking for an address in use); "
